@@ -193,6 +193,7 @@ impl Property for C13Pool {
         let viol = |sig: String, detail: String, classes: Vec<String>| RunReport { verdict: Verdict::Violation { signature: sig, detail }, nontrivial: true, classes, fingerprint: fp, trace: Some(out.trace.clone()), summary: summary.clone() };
         match &out.end {
             EndState::Completed => {},
+            EndState::Blocked { .. } => { std::mem::forget(pool); payload::set_current_ledger(None); return RunReport { verdict: Verdict::Inconclusive("blocked-in-uninstrumented-wait".into()), nontrivial: false, classes, fingerprint: fp, trace: Some(out.trace), summary }; },
             EndState::Budget => { std::mem::forget(pool); payload::set_current_ledger(None); return RunReport { verdict: Verdict::Inconclusive("step-budget".into()), nontrivial: false, classes, fingerprint: fp, trace: Some(out.trace), summary }; },
             EndState::Stall { stuck, .. } => { std::mem::forget(pool); payload::set_current_ledger(None); return viol(format!("{k}/stall"), format!("threads {:?} spin for ever; history: {summary}", stuck), classes); },
             EndState::Panicked { tid, msg } => { std::mem::forget(pool); payload::set_current_ledger(None); return viol(format!("{k}/panic"), format!("thread {tid} panicked: {msg}; history: {summary}"), classes); },
@@ -493,6 +494,7 @@ impl Property for C14Handles {
             other => {
                 let verdict = match other {
                     EndState::Budget => Verdict::Inconclusive("step-budget".into()),
+                    EndState::Blocked { .. } => Verdict::Inconclusive("blocked-in-uninstrumented-wait".into()),
                     EndState::Stall { stuck, .. } => Verdict::Violation { signature: format!("{k}/stall"), detail: format!("threads {:?} spin for ever; scripts {summary}", stuck) },
                     EndState::Panicked { tid, msg } => Verdict::Violation { signature: format!("{k}/panic"), detail: format!("thread {tid} panicked: {msg}; scripts {summary}") },
                     EndState::Completed => unreachable!(),
@@ -627,7 +629,7 @@ impl Property for C19Average {
         let summary = format!("recorders={:?} probes={:?}", case.recorders.iter().map(|r| r.iter().map(|m| MEASUREMENTS[*m as usize % 8]).collect::<Vec<_>>()).collect::<Vec<_>>(), probes);
         let classes = vec![format!("recorders:{}", n)];
         if out.end != EndState::Completed {
-            let verdict = match &out.end { EndState::Budget => Verdict::Inconclusive("step-budget".into()),
+            let verdict = match &out.end { EndState::Budget => Verdict::Inconclusive("step-budget".into()), EndState::Blocked { .. } => Verdict::Inconclusive("blocked-in-uninstrumented-wait".into()),
                 other => Verdict::Violation { signature: "average/abnormal-end".into(), detail: format!("{:?}; {summary}", other) } };
             return RunReport { verdict, nontrivial: false, classes, fingerprint: fp, trace: Some(out.trace), summary };
         }
